@@ -50,8 +50,10 @@ def _run_op(op):
             kw = {"coef_type": op.get("coef_type", "F")}
             seed = None
             if op.get("seed") is not None:
-                seed = numpy.array(op["seed"])
-                args.append(("seed", seed, seed.copy()))
+                sc = op.get("seed_container", "array")
+                seed = numpy.array(op["seed"]) if sc == "array" else numpy.array(op["seed"], dtype=bool) if sc == "boolarray" else \
+                    list(op["seed"]) if sc == "list" else tuple(op["seed"])
+                args.append(("seed", seed, numpy.array(seed)))
                 kw["seed"] = seed
             res = enc_lalg(completion_from_root_finding(coefs, **kw))
         elif name == "p2l":
